@@ -50,7 +50,7 @@ def equivalences():
     add("drop2_vs_select", ("s", "h", "a"), lambda x, c: x >> pdt.drop(x.s, x.a), lambda x, c: x >> pdt.select(*[col for col in x if col.name not in ("s", "a")]))
     add("rename_inverse", ("a", "s"), lambda x, c: x >> pdt.rename({"a": "q", "s": "r"}) >> pdt.rename({"q": "a", "r": "s"}), lambda x, c: x)
     add("rename_swap_twice", ("a", "b"), lambda x, c: x >> pdt.rename({"a": "b", "b": "a"}) >> pdt.rename({"a": "b", "b": "a"}), lambda x, c: x)
-    for (n1, o1, n2, o2) in ((4, 1, 2, 1), (3, 0, 5, 2), (5, 2, 0, 0), (2, 0, 1, 3)):
+    for (n1, o1, n2, o2) in ((4, 1, 2, 1), (3, 0, 5, 2), (5, 2, 0, 0), (2, 0, 1, 3), (5, 2, 4, 1), (3, 2, 5, 1), (6, 3, 10, 2)):
         add(f"slice_chain/{n1},{o1},{n2},{o2}", ("h",), lambda x, c, n1=n1, o1=o1, n2=n2, o2=o2: x >> pdt.arrange(x.h) >> pdt.slice_head(n1, offset=o1) >> pdt.slice_head(n2, offset=o2),
             lambda x, c, n1=n1, o1=o1, n2=n2, o2=o2: x >> pdt.arrange(x.h) >> pdt.slice_head(min(max(n1 - o2, 0), n2), offset=o1 + o2), uniq=True)
     add("inner_join_vs_cross_filter", ("a", "h"), lambda x, c: x >> pdt.inner_join(c.u, x.a == c.u.a), lambda x, c: x >> pdt.cross_join(c.u) >> pdt.filter(x.a == c.u.a))
